@@ -42,6 +42,13 @@ Theorem C02_prereqs_meaning : forall w t p, WFin w -> k_ext (gett w t) = false -
    In p (k_preds (gett w t)) \/ exists a, anc w t a /\ In p (k_preds (gett w a))).
 Proof. exact c02_prereqs_meaning. Qed.
 
+(* ... the oracle's expansion [prereq_leaves] is "each expanded to its leaf descendants": exactly the leaves
+   below a prerequisite (the fuel of [leaves_of] suffices under WFin) ... *)
+Theorem C02_prereq_leaves_meaning : forall w t q, WFin w -> k_ext (gett w t) = false ->
+  (In q (prereq_leaves w t) <->
+   exists p, In p (prereqs w t) /\ below w p q /\ is_leaf (gett w q) = true).
+Proof. exact c02_prereq_leaves_meaning. Qed.
+
 (* ... every prerequisite and everything below it has an end in the schedule (the bounds are not vacuous) ... *)
 Theorem C02_prereq_ends_defined : forall cfg w st t p q,
   WFin w -> forward cfg w = Ok st -> k_ext (gett w t) = false ->
@@ -128,6 +135,7 @@ Proof. split; [vm_compute; reflexivity|]. split; [repeat split|]. vm_compute. re
 Print Assumptions C02_leaf.
 Print Assumptions C02_milestone.
 Print Assumptions C02_prereqs_meaning.
+Print Assumptions C02_prereq_leaves_meaning.
 Print Assumptions C02_prereq_ends_defined.
 Print Assumptions C02_descendant_ends.
 Print Assumptions C02_oracle_meaning.
